@@ -21,12 +21,22 @@ def M(n, batch=(), cls='Motion'):
   return Struct(cls, {'ang': symarr(n + 'w', batch + (3,)), 'vel': symarr(n + 'v', batch + (3,))})
 
 
+def _all_zero(x):
+  return all(Rat.lift(v).n == avn.Poly() for v in asarr(x).ravel())
+
+
 def c_normalize(x, axis=None):
+  """Contract of math.normalize: (x / |x|, |x|); the zero vector maps to (0, 0) as in the code
+  (x / (0 + 1e-6) = 0).  The epsilon guard itself is decided by C03 R3.4."""
+  if _all_zero(x):
+    return asarr(x) * 0, Rat.lift(0)
   n = P_norm(x)
   return asarr(x) / n, n
 
 
 def c_safe_norm(x, axis=None):
+  if _all_zero(x):
+    return Rat.lift(0)
   return P_norm(x)
 
 
